@@ -290,7 +290,9 @@ def run(ctx):
                 continue
             nzip += 1
             strict = any(k.arg == "strict" and isinstance(k.value, ast.Constant) and k.value.value is True for k in inner.keywords)
-            measured = name is not None and materialised and any(isinstance(c, ast.Compare) and any(isinstance(x, ast.Call) and getattr(x.func, "id", "") == "len" and x.args and isinstance(x.args[0], ast.Name) and x.args[0].id == name for x in ast.walk(c)) for c in g.own_nodes())
+            # locals that hold len(<the materialised sequence>)
+            len_names = {n_.targets[0].id for n_ in g.own_nodes() if isinstance(n_, ast.Assign) and len(n_.targets) == 1 and isinstance(n_.targets[0], ast.Name) and isinstance(n_.value, ast.Call) and getattr(n_.value.func, "id", "") == "len" and n_.value.args and isinstance(n_.value.args[0], ast.Name) and n_.value.args[0].id == name and single_def(g, n_.targets[0].id) is not None}
+            measured = name is not None and materialised and any(isinstance(c, ast.Compare) and any((isinstance(x, ast.Call) and getattr(x.func, "id", "") == "len" and x.args and isinstance(x.args[0], ast.Name) and x.args[0].id == name) or (isinstance(x, ast.Name) and x.id in len_names) for x in ast.walk(c)) for c in g.own_nodes())
             counts_other = [x for n in g.own_nodes() if isinstance(n, ast.Dict) for k, v in zip(n.keys, n.values) if isinstance(k, ast.Constant) and isinstance(k.value, str) and k.value.startswith("n") for x in ast.walk(v) if isinstance(x, ast.Call) and getattr(x.func, "id", "") == "len" and x.args and isinstance(x.args[0], ast.Name) and x.args[0].id != name and any(isinstance(a, ast.Name) and a.id == x.args[0].id for a in ast.walk(inner))]
             if strict or measured:
                 if counts_other:
